@@ -84,9 +84,138 @@ def _opfail(case: Dict[str, Any]) -> CaseResult:
     return res
 
 
+def _setup_retry(case: Dict[str, Any]) -> CaseResult:
+    """dag.setup() fails because one setup node raises while a sibling setup node is still running (the controller
+    releases the failing one first); afterwards setup() is retried with nothing failing and the DAG is called.  The
+    first setup() must fail like any call (C14's shape), the retry and the call raise nothing - a failed run leaves
+    nothing behind that could trip a later one."""
+    import asyncio
+
+    from .. import oracle, prog, sched
+    from ..schedcase import Model, execute
+
+    res = CaseResult()
+    res.cls("setup-fails-then-retried")
+    c1 = dict(case, call="setup", sel=None)
+    M = Model(c1)
+    out = execute(c1, M)
+    res.evals = 1
+    if out.build_exc is not None:
+        res.viol("build-error", f"building raised {type(out.build_exc).__name__}: {out.build_exc}")
+        return res
+    T = oracle.Trace(M, out)
+    for r, m, k in oracle.failure(T, c1):
+        res.viol(r, m + " [first setup()]", k)
+    failed_ran = [s for s in case["failing"] if any(not x["ok"] for x in T.exit.get(s, []))]
+    if not failed_ran or res.violations:
+        return res
+    res.nontrivial = True
+    b = out.built
+    # give the abandoned siblings of the failed run the time to finish (their gates were opened when the run ended)
+    is_async = bool(case.get("async"))
+    for what, fn in (("retried setup()", lambda: b.dag.setup()), ("call after the retried setup()", lambda: b.dag())):
+        ex = sched.Exec("free")
+        try:
+            with ex:
+                r_ = fn()
+                val = asyncio.run(r_) if asyncio.iscoroutine(r_) else r_
+        except BaseException as e:  # noqa: BLE001
+            if isinstance(e, (KeyboardInterrupt, sched.HarnessSignal)):
+                raise
+            res.viol("internal-error", f"the {what} raised {type(e).__name__}: {str(e)[:300]} although no node failed in it [after a setup() that failed on {failed_ran}]")
+            return res
+        res.evals += 1
+    want = prog.ref_run(case["prog"], [], prog.Ref())
+    if val != want:
+        res.viol("value", f"the call after the retried setup() returned {val!r}, reference {want!r}")
+    return res
+
+
+def _setup_retry_overlap(case: Dict[str, Any]) -> CaseResult:
+    """Like _setup_retry, but the sibling of the failing setup node is STILL RUNNING when setup() is retried (it waits
+    for an event that is set only once the retry has entered the same node): the abandoned execution and the retry
+    finish side by side.  The retry must not raise: an execution that has failed is over, whatever its leftovers do."""
+    import asyncio
+    import threading
+    import time
+
+    from .. import prog, sched
+
+    res = CaseResult()
+    res.cls("setup-fails-then-retried", "retry-overlaps-the-abandoned-run")
+    res.nontrivial = True
+    r1, r2 = case["res"]
+
+    def call(fn: str, i: int, args: Any, mark: bool = True) -> Dict[str, Any]:
+        return {"k": "call", "fn": fn, "site": f"@s{i}", "mark": mark, "args": args, "kwargs": {}, "active": None,
+                "unpack": None, "tags": [], "out": f"v{i}"}
+
+    P = {"name": "P", "params": [], "ret": ["T", [["v", "v1"], ["v", "v2"]]],
+         "fns": {"f": {"kind": "term", "res": r1, "setup": True, "prio": 5}, "w": {"kind": "waitev", "res": r2, "setup": True},
+                 "u": {"kind": "term", "res": "thread"}},
+         "body": [call("f", 0, []), call("w", 1, []), call("u", 2, [["v", "v1"]])]}
+    is_async = bool(case.get("async"))
+    b = prog.build(P, is_async=is_async, mc=case.get("mc", 2))
+    prog.LIVE.clear()
+    prog.LIVE.update(event=threading.Event(), timeout=10.0, timed_out=False)
+
+    def run(fn: Any, ex: sched.Exec) -> Any:
+        with ex:
+            r_ = fn()
+            return asyncio.run(r_) if asyncio.iscoroutine(r_) else r_
+
+    ex1 = sched.Exec("free", failing=["@s0"], watchdog=False, drain=False)  # the waiting node outlives this run on purpose
+    try:
+        run(lambda: b.dag.setup(), ex1)
+        res.viol("failure-swallowed", "setup() returned although a setup node raised")
+        prog.LIVE["event"].set()
+        return res
+    except BaseException as e:  # noqa: BLE001
+        if isinstance(e, (KeyboardInterrupt, sched.HarnessSignal)):
+            raise
+    out: Dict[str, Any] = {}
+    ex2 = sched.Exec("free", watchdog=False)
+
+    def retry() -> None:
+        try:
+            out["value"] = run(lambda: b.dag.setup(), ex2)
+        except BaseException as e:  # noqa: BLE001
+            out["exc"] = e
+
+    th = threading.Thread(target=retry, daemon=True)
+    th.start()
+    end = time.monotonic() + 5.0
+    while time.monotonic() < end and not any(e["k"] == "ENTER" and e["site"] == "@s1" for e in ex2.events) and th.is_alive():
+        time.sleep(0.002)
+    prog.LIVE["event"].set()  # both executions of the waiting node (abandoned run, retry) may finish now
+    th.join(20)
+    res.evals = 2
+    if th.is_alive():
+        res.inconclusive = "retry-did-not-finish"
+        return res
+    if "exc" in out:
+        e = out["exc"]
+        res.viol("internal-error", f"the retried setup() raised {type(e).__name__}: {str(e)[:300]} although no node failed in it (the first setup() had failed on another node while this one was still running)")
+        return res
+    try:
+        val = run(lambda: b.dag(), sched.Exec("free", watchdog=False))
+    except BaseException as e:  # noqa: BLE001
+        if isinstance(e, (KeyboardInterrupt, sched.HarnessSignal)):
+            raise
+        res.viol("internal-error", f"the call after the retried setup() raised {type(e).__name__}: {str(e)[:300]}")
+        return res
+    if not (isinstance(val, tuple) and len(val) == 2 and val[0] == ("waitev", True)):
+        res.viol("value", f"the call after the retried setup() returned {val!r}")
+    return res
+
+
 def run_case(case: Dict[str, Any]) -> CaseResult:
+    if case.get("family") == "setup-retry-overlap":
+        return _setup_retry_overlap(case)
     if case.get("family") == "opfail":
         return _opfail(case)
+    if case.get("family") == "setup-retry":
+        return _setup_retry(case)
     return sc.evaluate(case, ORACLES, _nt)
 
 
@@ -151,9 +280,30 @@ def _opfail_case(draw: Any) -> Dict[str, Any]:
 
 
 @st.composite
+def _setup_retry_case(draw: Any) -> Dict[str, Any]:
+    from .. import gen
+
+    P = draw(gen.flat_prog(min_sites=3, max_sites=6, max_deps=2, resources=("thread", "async-thread"), dep_kinds=("pos", "kw"),
+                           n_setup=draw(st.integers(2, 4)), wide=True))
+    ssites = [s["site"] for s in P["body"] if P["fns"][s["fn"]].get("setup")]
+    for s in P["body"]:
+        f = P["fns"][s["fn"]]
+        if f.get("setup") and f.get("kind") == "const":
+            f["kind"] = "term"
+    return {"family": "setup-retry", "prog": P, "mc": draw(st.integers(2, 3)), "async": draw(st.booleans()), "mode": "ctl",
+            "choices": draw(st.lists(st.integers(0, 2**16), max_size=8)),
+            "failing": [draw(st.sampled_from(ssites))]}
+
+
+@st.composite
 def _cases(draw: Any, tier: str) -> Dict[str, Any]:
     if draw(st.integers(0, 19)) == 0:
         return draw(_opfail_case())
+    if draw(st.integers(0, 14)) == 0:
+        return draw(_setup_retry_case())
+    if draw(st.integers(0, 24)) == 0:
+        return {"family": "setup-retry-overlap", "async": draw(st.booleans()), "mc": draw(st.integers(2, 3)),
+                "res": [draw(st.sampled_from(["thread", "async-thread", "main-thread"])), draw(st.sampled_from(["thread", "async-thread"]))]}
     if draw(st.booleans()):
         return draw(_fan(tier))
     c = draw(sc.sched_case(tier=tier, modes=("ctl", "ctl", "free", "ctl-ex"), min_sites=2, max_sites=9,
